@@ -116,6 +116,12 @@ CHECKS["C18"] = (
     "'Unrelated' is decided from the construction (not imported, defines nothing referenced - equal names are different declarations - and not re-exported on the module's path).",
     "6/C18",
 )
+CHECKS["C08"] = (
+    "deviation-bounded exhaustive exploration of environment schedules on the real pipeline (iteration order of every tool-built set and listing order of package directories as recorded choice points; all schedules with <= d deviations from the default), plus real interpreter runs over hash seeds / path spellings / working directories / repetitions",
+    "9 inputs constructed to contain ties (two equal-depth re-exporters, equal short class names, three TypeVars, inferred tuple results, a module star-imported by several packages, 3-member unions and literals, 4 TODO markers, foreign classes of several libraries, modules spread over directories). Every schedule with <= 1 deviation (thorough: <= 2 on four inputs, a second option set, every 9th doubly re-exporting C03 tree) is executed; every output file must be byte-identical to the default schedule's; the default schedule is replayed twice first. Completeness probe: 8 (quick) / 32 (thorough) real runs per input with different PYTHONHASHSEED must agree; 8 real runs over source/output spellings, working directories and repetition with mypy's cache must agree. Evidence lists schedules, choice points, distinct outputs and the sites whose deviation changed the output.",
+    "Sets are owned by injecting an order-controlled subclass as the name 'set' into the tool's modules and wrapping os.scandir/os.listdir (no source hook); mypy's/griffe's internal orders are covered only by the hash-seed probe; orders offered for n>3 elements are rotations and reversal.",
+    "6/C08",
+)
 NOT_YET = {}  # id -> reason (filled for properties without a check)
 
 props = [json.loads(l) for l in open(V / "properties.jsonl")]
